@@ -72,6 +72,17 @@ theorem gen_md_keeps_zeros (d : Dom) (cliques : List Clique) (zs : List ZeroSpec
   (E2EGen.md_inv (ZerosIn d cliques zs) bp lossgrad iters theta0 total h0
     (fun omega al m hω => zerosIn_update d cliques zs hd hcl hcn omega _ al hω (hgrad m))).1
 
+/-- the same with the layout of the gradient asked only where the loop evaluates it: at the oracle's answer on parameters
+laid out on the model's cliques (`E2EGen.md_inv_bp`) -/
+theorem gen_md_keeps_zeros_bp (d : Dom) (cliques : List Clique) (zs : List ZeroSpec) (hd : d.WF)
+    (hcl : ∀ c ∈ cliques, c.Nodup ∧ ∀ a ∈ c, a ∈ d.attrs) (hcn : cliques.Nodup)
+    (bp : CliqueVec (LogOf K) → CliqueVec (LogOf K)) (lossgrad : CliqueVec (LogOf K) → LogOf K × CliqueVec (LogOf K))
+    (hgrad : ∀ θ, VecOK d cliques θ → VecOK d cliques (lossgrad (bp θ)).2) (iters : Nat) (theta0 : CliqueVec (LogOf K))
+    (total : LogOf K) (h0 : ZerosIn d cliques zs theta0) :
+    ZerosIn d cliques zs (InfG.mirrorDescent bp lossgrad iters theta0 total).potentials :=
+  (E2EGen.md_inv_bp (ZerosIn d cliques zs) bp lossgrad iters theta0 total h0
+    (fun omega al hω => zerosIn_update d cliques zs hd hcl hcn omega _ al hω (hgrad omega hω.1))).1
+
 /-- **dual averaging's rebuilt parameters have the zeros**: `theta = c * gbar; theta.combine(self.structural_zeros)` — for
 every averaged gradient `gbar` laid out on the model's cliques and every scalar `c` -/
 theorem gen_rda_rebuild_has_zeros (d : Dom) (cliques : List Clique) (zs : List ZeroSpec) (hd : d.WF)
@@ -116,8 +127,10 @@ admissible behaviour of the library contracts.  Then for the returned object `g`
    returned parameters being nonnegative in exp-space with `Z ≠ 0` — each stored table is `0` at the declared cells of every
    zero clique it contains.
 
-Hypotheses on the run: `hgrad` — the gradient of `_marginal_loss` is laid out on the model's cliques. -/
-theorem gen_estimate_zeros_end_to_end (nx : Nx) (estT : List (Loss.Meas (LogOf K)) → LogOf K)
+Hypotheses on the run: `hgrad` — the gradient of the loss is laid out on the model's cliques at the oracle's answer on
+parameters laid out on them (`gen_estimate_zeros_end_to_end` below asks it at EVERY argument, as before;
+`gen_estimate_zeros_end_to_end_closed` / `_L2` / `_L1` discharge it for the generated `_marginal_loss`). -/
+theorem gen_estimate_zeros_end_to_end_bp (nx : Nx) (estT : List (Loss.Meas (LogOf K)) → LogOf K)
     (logf : Factor (LogOf K) → Factor (LogOf K)) (topEigs : List (Loss.Meas (LogOf K)) → List (LogOf K))
     (logger : V) (cbVal : Option Cb → V) (s : Est (LogOf K)) (a : Args (LogOf K) V Cb) (hMD : a.engine = "MD")
     (zs : List ZeroSpec) (hzs : s.cfg.structural_zeros = zeroVec s.cfg.domain zs)
@@ -127,8 +140,9 @@ theorem gen_estimate_zeros_end_to_end (nx : Nx) (estT : List (Loss.Meas (LogOf K
     (hadm : Admissible nx s.cfg.domain (inCliques s.cfg (measOf s a)) (modeOf s.cfg.elim_order))
     (hz : ∀ z ∈ zs, z.zc.Nodup ∧ (∀ x ∈ z.zc, x ∈ s.cfg.domain.attrs) ∧
       ∃ q ∈ modelCliques (gmC nx) s.cfg (measOf s a), JT.subset z.zc q = true)
-    (hgrad : ∀ m, VecOK s.cfg.domain (modelCliques (gmC nx) s.cfg (measOf s a))
-      (lossOf s.cfg (freshGM (gmC nx) estT s a) (measOf s a) m).2) :
+    (hgrad : ∀ θ, VecOK s.cfg.domain (modelCliques (gmC nx) s.cfg (measOf s a)) θ →
+      VecOK s.cfg.domain (modelCliques (gmC nx) s.cfg (measOf s a))
+        (lossOf s.cfg (freshGM (gmC nx) estT s a) (measOf s a) (bpO nx (freshGM (gmC nx) estT s a) θ)).2) :
     ∃ g, (estimateG (gmC nx) estT (bpO nx) (mleO logf nx) topEigs logger cbVal s a).2.2 = some g ∧
       g.cliques = modelCliques (gmC nx) s.cfg (measOf s a) ∧
       ZerosIn s.cfg.domain g.cliques zs g.potentials ∧
@@ -150,7 +164,7 @@ theorem gen_estimate_zeros_end_to_end (nx : Nx) (estT : List (Loss.Meas (LogOf K
   have hcn : (modelCliques (gmC nx) s.cfg (measOf s a)).Nodup := hcq.1
   have hcl : ∀ q ∈ modelCliques (gmC nx) s.cfg (measOf s a), q.Nodup ∧ ∀ x ∈ q, x ∈ s.cfg.domain.attrs := hcq.2.2
   have h0 := gen_setup_zerosIn (gmC nx) s zs hzs hfresh (measOf s a) hd hsizes hcl hcn hz
-  have hZ := gen_md_keeps_zeros s.cfg.domain _ zs hd hcl hcn (bpO nx (freshGM (gmC nx) estT s a))
+  have hZ := gen_md_keeps_zeros_bp s.cfg.domain _ zs hd hcl hcn (bpO nx (freshGM (gmC nx) estT s a))
     (lossOf s.cfg (freshGM (gmC nx) estT s a) (measOf s a)) hgrad s.cfg.iters _ (freshGM (gmC nx) estT s a).total h0
   refine ⟨_, h1, rfl, ?_, ?_, ?_⟩
   · rw [hr]; exact hZ
@@ -197,5 +211,137 @@ theorem gen_estimate_zeros_end_to_end (nx : Nx) (estT : List (Loss.Meas (LogOf K
       rw [hr]
       exact zero_in_all_answers_valid s.cfg.domain _ z c σ hd hzc (fun τ hτ h => hZ.2 τ hτ ⟨z, hzm, h⟩) hσ hit
     exact key.trans (by rw [hmz, mul_zero, zero_div])
+
+/-- the form with `hgrad` asked at every argument of the loss (any loss with that property) -/
+theorem gen_estimate_zeros_end_to_end (nx : Nx) (estT : List (Loss.Meas (LogOf K)) → LogOf K)
+    (logf : Factor (LogOf K) → Factor (LogOf K)) (topEigs : List (Loss.Meas (LogOf K)) → List (LogOf K))
+    (logger : V) (cbVal : Option Cb → V) (s : Est (LogOf K)) (a : Args (LogOf K) V Cb) (hMD : a.engine = "MD")
+    (zs : List ZeroSpec) (hzs : s.cfg.structural_zeros = zeroVec s.cfg.domain zs)
+    (hfresh : s.cfg.warm_start = false ∨ s.model = none)
+    (hd : s.cfg.domain.WF) (hne : s.cfg.domain.attrs ≠ []) (hsizes : ∀ p ∈ s.cfg.domain, 0 < p.2)
+    (hin : ∀ c ∈ inCliques s.cfg (measOf s a), c.Nodup ∧ ∀ x ∈ c, x ∈ s.cfg.domain.attrs)
+    (hadm : Admissible nx s.cfg.domain (inCliques s.cfg (measOf s a)) (modeOf s.cfg.elim_order))
+    (hz : ∀ z ∈ zs, z.zc.Nodup ∧ (∀ x ∈ z.zc, x ∈ s.cfg.domain.attrs) ∧
+      ∃ q ∈ modelCliques (gmC nx) s.cfg (measOf s a), JT.subset z.zc q = true)
+    (hgrad : ∀ m, VecOK s.cfg.domain (modelCliques (gmC nx) s.cfg (measOf s a))
+      (lossOf s.cfg (freshGM (gmC nx) estT s a) (measOf s a) m).2) :
+    ∃ g, (estimateG (gmC nx) estT (bpO nx) (mleO logf nx) topEigs logger cbVal s a).2.2 = some g ∧
+      g.cliques = modelCliques (gmC nx) s.cfg (measOf s a) ∧
+      ZerosIn s.cfg.domain g.cliques zs g.potentials ∧
+      (∀ z ∈ zs, ∀ (as : List Attr) (σ : Attr → Nat), as.Nodup → (∀ x ∈ as, x ∈ s.cfg.domain.attrs) →
+        (∀ x ∈ z.zc, x ∈ as) → Hits z σ → s.cfg.domain.Valid σ → marginal s.cfg.domain g.potentials as σ = 0) ∧
+      (∀ m, g.marginals = some m → (∀ p ∈ g.potentials, ∀ x ∈ p.2.vals.data.toList, 0 ≤ x.v) →
+        partition s.cfg.domain g.potentials ≠ 0 →
+        m = bpO nx g g.potentials ∧
+        ∀ z ∈ zs, ∀ c ∈ g.cliques, (∀ x ∈ z.zc, x ∈ c) → ∀ σ, s.cfg.domain.Valid σ → Hits z σ →
+          ((m.get c).sem σ).v = 0) :=
+  gen_estimate_zeros_end_to_end_bp nx estT logf topEigs logger cbVal s a hMD zs hzs hfresh hd hne hsizes hin hadm hz (fun θ _ => hgrad _)
+
+/-- **`hgrad` holds for the generated `_marginal_loss`, both metrics**: at the answer of the generated
+`belief_propagation` (on the generated `__init__`) to parameters laid out on the model's cliques, the gradient is laid out
+on them — `C08E.gen_bp_laid` (the oracle keeps the layout) and `C08E.gen_lossOf_laid` (the gradient has the layout of the
+marginals; the measurements are arbitrary) -/
+theorem gen_hgrad (nx : Nx) (estT : List (Loss.Meas (LogOf K)) → LogOf K) (s : Est (LogOf K)) (a : Args (LogOf K) V Cb)
+    (hd : s.cfg.domain.WF) (hne : s.cfg.domain.attrs ≠ [])
+    (hin : ∀ c ∈ inCliques s.cfg (measOf s a), c.Nodup ∧ ∀ x ∈ c, x ∈ s.cfg.domain.attrs)
+    (hadm : Admissible nx s.cfg.domain (inCliques s.cfg (measOf s a)) (modeOf s.cfg.elim_order))
+    (θ : CliqueVec (LogOf K)) (hθ : VecOK s.cfg.domain (modelCliques (gmC nx) s.cfg (measOf s a)) θ) :
+    VecOK s.cfg.domain (modelCliques (gmC nx) s.cfg (measOf s a))
+      (lossOf s.cfg (freshGM (gmC nx) estT s a) (measOf s a) (bpO nx (freshGM (gmC nx) estT s a) θ)).2 := by
+  have hcq := gen_init_cliques_ok nx s.cfg.domain (inCliques s.cfg (measOf s a)) (freshGM (gmC nx) estT s a).total
+    (modeOf s.cfg.elim_order) hd hne hin hadm
+  have hcs : (genInit nx s.cfg.domain (inCliques s.cfg (measOf s a)) (freshGM (gmC nx) estT s a).total
+      (modeOf s.cfg.elim_order)).cliques = modelCliques (gmC nx) s.cfg (measOf s a) := by
+    simp only [modelCliques, gmC, gen_init_cliques]
+  have hbp : LocalE2E.Laid s.cfg.domain (modelCliques (gmC nx) s.cfg (measOf s a)) (bpO nx (freshGM (gmC nx) estT s a) θ) := by
+    rw [← hcs]
+    exact gen_bp_laid nx s.cfg.domain (inCliques s.cfg (measOf s a)) (freshGM (gmC nx) estT s a).total
+      (modeOf s.cfg.elim_order) hd hne hin hadm θ (hcs ▸ hθ)
+  rw [hcs] at hcq
+  exact gen_lossOf_laid s.cfg (freshGM (gmC nx) estT s a) (measOf s a) _ hcq.1 _ hbp
+
+/-- **STRUCTURAL ZEROS, END TO END, FOR THE GENERATED CODE — NO HYPOTHESIS ON THE LOSS** (engine MD, the generated
+`_marginal_loss`, whichever metric the estimator is configured with, arbitrary measurements): the statement of
+`gen_estimate_zeros_end_to_end_bp` with `hgrad` discharged by `gen_hgrad` -/
+theorem gen_estimate_zeros_end_to_end_closed (nx : Nx) (estT : List (Loss.Meas (LogOf K)) → LogOf K)
+    (logf : Factor (LogOf K) → Factor (LogOf K)) (topEigs : List (Loss.Meas (LogOf K)) → List (LogOf K))
+    (logger : V) (cbVal : Option Cb → V) (s : Est (LogOf K)) (a : Args (LogOf K) V Cb) (hMD : a.engine = "MD")
+    (zs : List ZeroSpec) (hzs : s.cfg.structural_zeros = zeroVec s.cfg.domain zs)
+    (hfresh : s.cfg.warm_start = false ∨ s.model = none)
+    (hd : s.cfg.domain.WF) (hne : s.cfg.domain.attrs ≠ []) (hsizes : ∀ p ∈ s.cfg.domain, 0 < p.2)
+    (hin : ∀ c ∈ inCliques s.cfg (measOf s a), c.Nodup ∧ ∀ x ∈ c, x ∈ s.cfg.domain.attrs)
+    (hadm : Admissible nx s.cfg.domain (inCliques s.cfg (measOf s a)) (modeOf s.cfg.elim_order))
+    (hz : ∀ z ∈ zs, z.zc.Nodup ∧ (∀ x ∈ z.zc, x ∈ s.cfg.domain.attrs) ∧
+      ∃ q ∈ modelCliques (gmC nx) s.cfg (measOf s a), JT.subset z.zc q = true) :
+    ∃ g, (estimateG (gmC nx) estT (bpO nx) (mleO logf nx) topEigs logger cbVal s a).2.2 = some g ∧
+      g.cliques = modelCliques (gmC nx) s.cfg (measOf s a) ∧
+      ZerosIn s.cfg.domain g.cliques zs g.potentials ∧
+      (∀ z ∈ zs, ∀ (as : List Attr) (σ : Attr → Nat), as.Nodup → (∀ x ∈ as, x ∈ s.cfg.domain.attrs) →
+        (∀ x ∈ z.zc, x ∈ as) → Hits z σ → s.cfg.domain.Valid σ → marginal s.cfg.domain g.potentials as σ = 0) ∧
+      (∀ m, g.marginals = some m → (∀ p ∈ g.potentials, ∀ x ∈ p.2.vals.data.toList, 0 ≤ x.v) →
+        partition s.cfg.domain g.potentials ≠ 0 →
+        m = bpO nx g g.potentials ∧
+        ∀ z ∈ zs, ∀ c ∈ g.cliques, (∀ x ∈ z.zc, x ∈ c) → ∀ σ, s.cfg.domain.Valid σ → Hits z σ →
+          ((m.get c).sem σ).v = 0) :=
+  gen_estimate_zeros_end_to_end_bp nx estT logf topEigs logger cbVal s a hMD zs hzs hfresh hd hne hsizes hin hadm hz
+    (gen_hgrad nx estT s a hd hne hin hadm)
+
+/-- the case `metric='L2'`: the loss of the run is the generated `_marginal_loss` (L2) -/
+theorem gen_estimate_zeros_end_to_end_L2 (nx : Nx) (estT : List (Loss.Meas (LogOf K)) → LogOf K)
+    (logf : Factor (LogOf K) → Factor (LogOf K)) (topEigs : List (Loss.Meas (LogOf K)) → List (LogOf K))
+    (logger : V) (cbVal : Option Cb → V) (s : Est (LogOf K)) (a : Args (LogOf K) V Cb) (hMD : a.engine = "MD")
+    (zs : List ZeroSpec) (hzs : s.cfg.structural_zeros = zeroVec s.cfg.domain zs)
+    (hfresh : s.cfg.warm_start = false ∨ s.model = none)
+    (hd : s.cfg.domain.WF) (hne : s.cfg.domain.attrs ≠ []) (hsizes : ∀ p ∈ s.cfg.domain, 0 < p.2)
+    (hin : ∀ c ∈ inCliques s.cfg (measOf s a), c.Nodup ∧ ∀ x ∈ c, x ∈ s.cfg.domain.attrs)
+    (hadm : Admissible nx s.cfg.domain (inCliques s.cfg (measOf s a)) (modeOf s.cfg.elim_order))
+    (hz : ∀ z ∈ zs, z.zc.Nodup ∧ (∀ x ∈ z.zc, x ∈ s.cfg.domain.attrs) ∧
+      ∃ q ∈ modelCliques (gmC nx) s.cfg (measOf s a), JT.subset z.zc q = true)
+    (hL2 : s.cfg.metric = Metric.L2) :
+    lossOf s.cfg (freshGM (gmC nx) estT s a) (measOf s a)
+      = InfG.marginalLossL2 s.cfg.domain (freshGM (gmC nx) estT s a).cliques (measOf s a) ∧
+    ∃ g, (estimateG (gmC nx) estT (bpO nx) (mleO logf nx) topEigs logger cbVal s a).2.2 = some g ∧
+      g.cliques = modelCliques (gmC nx) s.cfg (measOf s a) ∧
+      ZerosIn s.cfg.domain g.cliques zs g.potentials ∧
+      (∀ z ∈ zs, ∀ (as : List Attr) (σ : Attr → Nat), as.Nodup → (∀ x ∈ as, x ∈ s.cfg.domain.attrs) →
+        (∀ x ∈ z.zc, x ∈ as) → Hits z σ → s.cfg.domain.Valid σ → marginal s.cfg.domain g.potentials as σ = 0) ∧
+      (∀ m, g.marginals = some m → (∀ p ∈ g.potentials, ∀ x ∈ p.2.vals.data.toList, 0 ≤ x.v) →
+        partition s.cfg.domain g.potentials ≠ 0 →
+        m = bpO nx g g.potentials ∧
+        ∀ z ∈ zs, ∀ c ∈ g.cliques, (∀ x ∈ z.zc, x ∈ c) → ∀ σ, s.cfg.domain.Valid σ → Hits z σ →
+          ((m.get c).sem σ).v = 0) :=
+  ⟨by unfold lossOf; rw [hL2], gen_estimate_zeros_end_to_end_closed nx estT logf topEigs logger cbVal s a hMD zs hzs hfresh hd hne hsizes hin hadm hz⟩
+
+/-- the case `metric='L1'` -/
+theorem gen_estimate_zeros_end_to_end_L1 (nx : Nx) (estT : List (Loss.Meas (LogOf K)) → LogOf K)
+    (logf : Factor (LogOf K) → Factor (LogOf K)) (topEigs : List (Loss.Meas (LogOf K)) → List (LogOf K))
+    (logger : V) (cbVal : Option Cb → V) (s : Est (LogOf K)) (a : Args (LogOf K) V Cb) (hMD : a.engine = "MD")
+    (zs : List ZeroSpec) (hzs : s.cfg.structural_zeros = zeroVec s.cfg.domain zs)
+    (hfresh : s.cfg.warm_start = false ∨ s.model = none)
+    (hd : s.cfg.domain.WF) (hne : s.cfg.domain.attrs ≠ []) (hsizes : ∀ p ∈ s.cfg.domain, 0 < p.2)
+    (hin : ∀ c ∈ inCliques s.cfg (measOf s a), c.Nodup ∧ ∀ x ∈ c, x ∈ s.cfg.domain.attrs)
+    (hadm : Admissible nx s.cfg.domain (inCliques s.cfg (measOf s a)) (modeOf s.cfg.elim_order))
+    (hz : ∀ z ∈ zs, z.zc.Nodup ∧ (∀ x ∈ z.zc, x ∈ s.cfg.domain.attrs) ∧
+      ∃ q ∈ modelCliques (gmC nx) s.cfg (measOf s a), JT.subset z.zc q = true)
+    (hL1 : s.cfg.metric = Metric.L1) :
+    lossOf s.cfg (freshGM (gmC nx) estT s a) (measOf s a)
+      = InfG.marginalLossL1 s.cfg.domain (freshGM (gmC nx) estT s a).cliques (measOf s a) ∧
+    ∃ g, (estimateG (gmC nx) estT (bpO nx) (mleO logf nx) topEigs logger cbVal s a).2.2 = some g ∧
+      g.cliques = modelCliques (gmC nx) s.cfg (measOf s a) ∧
+      ZerosIn s.cfg.domain g.cliques zs g.potentials ∧
+      (∀ z ∈ zs, ∀ (as : List Attr) (σ : Attr → Nat), as.Nodup → (∀ x ∈ as, x ∈ s.cfg.domain.attrs) →
+        (∀ x ∈ z.zc, x ∈ as) → Hits z σ → s.cfg.domain.Valid σ → marginal s.cfg.domain g.potentials as σ = 0) ∧
+      (∀ m, g.marginals = some m → (∀ p ∈ g.potentials, ∀ x ∈ p.2.vals.data.toList, 0 ≤ x.v) →
+        partition s.cfg.domain g.potentials ≠ 0 →
+        m = bpO nx g g.potentials ∧
+        ∀ z ∈ zs, ∀ c ∈ g.cliques, (∀ x ∈ z.zc, x ∈ c) → ∀ σ, s.cfg.domain.Valid σ → Hits z σ →
+          ((m.get c).sem σ).v = 0) :=
+  ⟨by unfold lossOf; rw [hL1], gen_estimate_zeros_end_to_end_closed nx estT logf topEigs logger cbVal s a hMD zs hzs hfresh hd hne hsizes hin hadm hz⟩
+
+/-- the hypotheses of the closed form hold on the example estimator of C08E (no declared zero: `zs = []`) -/
+example : exArgs.engine = "MD" ∧ exEst.cfg.structural_zeros = zeroVec exEst.cfg.domain [] ∧
+    (exEst.cfg.warm_start = false ∨ exEst.model = none) ∧ exEst.cfg.metric = Metric.L2 ∧
+    (∀ p ∈ exEst.cfg.domain, 0 < p.2) := by
+  refine ⟨rfl, rfl, Or.inl rfl, rfl, by decide⟩
 
 end PGM.C10E
